@@ -243,10 +243,12 @@ BodyBytes(req) ==
 
 RequestLine(level, req) == NormMethod(level, req.method) \o <<SP>> \o NormTarget(level, req) \o <<SP>> \o HTTP11
 HeadLines(req) == AutoHost(req) \o AutoAE(req) \o FramingLines(req) \o AutoUA(req) \o CallerLines(req)
-Serialize(level, req) ==
+\* request line, header lines and the blank line: what endheaders() writes
+SerializeHead(level, req) ==
     RequestLine(level, req) \o CRLF
     \o Flatten([i \in 1..Len(HeadLines(req)) |-> HeadLines(req)[i] \o CRLF])
-    \o CRLF \o BodyBytes(req)
+    \o CRLF
+Serialize(level, req) == SerializeHead(level, req) \o BodyBytes(req)
 
 -----------------------------------------------------------------------------
 (* 6  Parse: paranoid request parser                                           *)
